@@ -106,3 +106,5 @@ def run(rep, program: Program, tier: str) -> None:
     from . import c09
 
     rep.isolate(c09.rule_r9, rep, program, prop=PROP, rule="R6")
+    # a state restored from a pickle must keep invalidating its cached values, or later steps use stale forces (shared with C09-R5)
+    rep.isolate(c09.rule_r5, rep, program, prop=PROP, rule="R7")
